@@ -70,7 +70,8 @@ CLAIMS = {
           "were written) and AppRefuse actions; TLC checks Openable/RowsReadable/FailureKeepsVersion with the restoring "
           "variant and that the non-restoring mutant violates them; Dataset.tla's Fault at a part-file write step models a "
           "mid-write rejection in a multi-file append. All failing histories TLC enumerates are replayed on real files "
-          "(un-encodable value or unknown per-column codec at that position; other columns/scheme) and directories, and a "
+          "(un-encodable value or unknown per-column codec at that position; other columns/scheme) and directories (also after "
+          "a removal that leaves a hole in the part numbers), and a "
           "catalogue of every refusal kind of the statement is executed against five existing dataset states; after each, "
           "the dataset must open and hold exactly its previous content."),
     design_ref="DESIGN.md section 5 C18, section 10",
@@ -116,9 +117,13 @@ CLAIMS = {
           "_column_filter over the same bounded domain (holds for the repaired variant, violated by the as-found one), and "
           "TLC's per-program verdict tables are compared with to_pandas(filters, row_filter=True) and count(..., "
           "row_filter=True) on the real datasets, including alignment of the other columns with the selected rows; all "
-          "boolean masks of <= 6 rows over 1..3 row groups (v1 and v2 pages) are applied through row_filter=mask."),
+          "boolean masks of <= 6 rows over 1..3 row groups (v1 and v2 pages) are applied through row_filter=mask. The "
+          "datasets are written with version-1 and version-2 data pages, as one page and as one-row pages per chunk, and "
+          "carry two categorical output columns (3 and 200 categories, with missing cells) whose alignment with the "
+          "selected rows is checked."),
     design_ref="DESIGN.md section 5 C13, section 10",
-    note=("Three defects repaired (flat list OR-ed; page window with nulls; nullable/object comparisons raising). Known "
+    note=("Four defects repaired (flat list OR-ed; page window with nulls; nullable/object comparisons raising; row "
+          "filter on version-2 pages handed every page the filter of the whole row group). Known "
           "findings: partition atoms ignored inside OR groups (KF-C13-1); consequence of KF-C05-1 (KF-C13-2)."),
     technique="TLA+ spec + TLC model checking of the transcribed row filter; TLC-generated verdict tables replayed end to end"),
  "C01": dict(
@@ -130,12 +135,18 @@ CLAIMS = {
           "or-preserve, the cell table a reader must reproduce). TLC checks the invariants over the whole product and "
           "exports every case; each is concretised (harness/concretise.py), written with the real writer under exactly "
           "that page budget/version and read back with the library: names, row count, every cell and its missingness, "
-          "dtype / categories, and the neighbouring column."),
+          "dtype / categories, and the neighbouring column(s). Write options on the dtype-class sub-lattice: codec, "
+          "times='int96', explicit object_encoding, fixed_text, file_scheme='hive', and the column written as the frame's "
+          "named row index, as the first level of a two-level MultiIndex, or next to a forced range index "
+          "(write_index=True); a categorical case carries a second categorical column with the opposite order flag; "
+          "every case with a missing cell is also replayed as an append to an existing file (simple and hive)."),
     design_ref="DESIGN.md section 5 C01, section 10",
     note=("TLA+ decides layout, counts, statistics and the expected cell table; rendering abstract values into pandas "
-          "values (concretise.py) is trusted. Quick: 11 core classes x rows {0,1,2,3,8,9} (23.8k cases); thorough: all 28 "
-          "classes incl. rows 17 (approx. 400k cases). Codecs, schemes and multi-column frames are covered by C02's sweep and "
-          "the Dataset-based checks, not by this product."),
+          "values (concretise.py) is trusted. Quick: 14 core classes x rows {0,1,2,3,8,9} plus all 35 classes (incl. "
+          "timedelta64[s|ms|us|ns], a 200-category categorical) x codecs x write options on a small product; thorough: all "
+          "classes incl. rows 17. Known findings KF-C01-1..6 (row index of nullable dtype, UInt64 index, ordered "
+          "CategoricalIndex, bool / nullable-boolean / tz-aware MultiIndex levels). Index label dtypes (Int32 vs int64, level "
+          "dtypes) are not compared, only labels, names, categories and order flag."),
     technique="TLA+ spec as layout/cell oracle + TLC enumeration of the input lattice; spec->code replay"),
  "C02": dict(
     level="model_checking",
@@ -144,7 +155,9 @@ CLAIMS = {
           "length, every Thrift field id and wire type against the IDL, offsets, sizes, value/null counts, encodings, "
           "page tiling - its layout is compared with the specification's pages/row groups, and its decoded cells (NULL "
           "vs in-band NaN/NaT per nullability mode) with the specification's cell table; a sweep over 7 codec settings x "
-          "{simple, hive, drill} x {v1, v2} validates every file of the dataset incl. _metadata and _common_metadata."),
+          "{simple, hive, drill} x {v1, v2} validates every file of the dataset incl. _metadata and _common_metadata; every "
+          "case with a missing cell is also replayed as an append (simple and hive) to a file that already holds the column, "
+          "and the independent reader must decode base + appended rows."),
     design_ref="DESIGN.md section 5 C02, section 10",
     note=("Trusted: pqspec and cramjam/zlib. Known finding KF-C02-1 (empty lists written with element type 0; native "
           "code). Statistics are judged by C04, not here."),
@@ -206,7 +219,8 @@ CLAIMS = {
     note=("Claimed as exploration, not model checking. 11 known findings (KF-C12-*: shifts wider than the type in "
           "read_bitpacked/_mask_for_bits/read_rle/delta_read_bitpacked/encode_bitpacked/zigzag/varint, heap overflow in "
           "write_thrift) are native and cannot be repaired here; a report in any other function or of another kind is a "
-          "new violation. The generated foreign files of C03 are replayed by the C03 check itself."),
+          "new violation. Foreign layouts with old- and new-style statistics are also read through a filter (the statistics "
+          "decoders)."),
     technique="TLA+ bounds models and TLC-generated input spaces (codec vectors, IDL shapes, write/read cases, foreign flat and nested layouts) replayed under an ASan/UBSan build (sanitizer is the oracle)"),
  "C03": dict(
     level="model_checking",
@@ -216,7 +230,9 @@ CLAIMS = {
           "format's validity rules and whose state carries the logical cells. TLC enumerates five sub-lattices "
           "exhaustively and samples the full product with seeded simulation; every terminal state is rendered to bytes "
           "by the independent encoder pqspec (which must read its own file back), read by the library, and compared cell "
-          "by cell and by dtype kind; NotImplementedError counts as the permitted refusal."),
+          "by cell and by dtype kind; NotImplementedError counts as the permitted refusal. Layouts that carry chunk statistics "
+          "(old style min/max + min_value/max_value, or new style min_value/max_value only) are also read through a filter on "
+          "a value that is present: the read must not fail and must not lose the rows that hold it."),
     design_ref="DESIGN.md section 5 C03, section 10",
     note=("Not exhaustive over the full product (simulation). Five reader defects repaired in Python (v2 level byte "
           "length, v2 RLE/dictionary pages with nulls, v1 RLE booleans, v2 DELTA INT64, zero-length pages); known findings "
@@ -229,10 +245,12 @@ CLAIMS = {
           "program (derivations of depth 1 over the full argument grid with every read kind: to_pandas, iter_row_groups, "
           "head(n) for every n, count, file-like, column selections; depth 2-3 compositions) with the expected view, row "
           "counts and rows; each program is executed on a single-file and a hive dataset and compared with the "
-          "corresponding projection of the full read, cell by cell, plus every reported count."),
+          "corresponding projection of the full read, cell by cell, plus every reported count. The datasets (this library's "
+          "single file and hive directory, and a foreign file) carry int, text, categorical, float-with-NaN, time-zone aware "
+          "timestamp and nullable integer columns; a time cell compares by instant and by awareness."),
     design_ref="DESIGN.md section 5 C06, section 10",
-    note=("Datasets are written without a row index (written non-range indexes are broken under pandas 3 here: C01's "
-          "concern). One defect repaired (head() on an empty view)."),
+    note=("Datasets are written without a row index (the written row index is covered by C01's index write options). "
+          "Defects repaired: head() on an empty view, copied handle of a file without pandas metadata."),
     technique="TLA+ spec of views with Python slice semantics; TLC enumeration of access programs; spec->code replay"),
  "C17": dict(
     level="model_checking",
@@ -258,7 +276,8 @@ CLAIMS = {
           "with and without metadata). TLC checks the invariants over every assignment of keys to rows x offset list and "
           "exports each with its expected directory tree; the real write is compared file by file (independent reader) "
           "and the read-back for rows, partition column names, values and value kinds (int, float, bool, datetime, text, "
-          "numeric-looking text, categorical with an unused category) in hive and drill layouts."),
+          "numeric-looking text, categorical with an unused category, and pairs of columns of different kinds whose directory "
+          "texts coincide) in hive and drill layouts."),
     design_ref="DESIGN.md section 5 C08, section 10",
     note=("Bounds: 4-5 rows, keys {missing,1,2,3}, one and two partition columns, 3-5 offset lists; kinds rotated over the "
           "cases in quick, every kind per case in thorough. Drill: the directory text is accepted in val_to_num's reading. "
@@ -267,7 +286,8 @@ CLAIMS = {
  "C14": dict(
     level="model_checking",
     text=("spec/ManyFiles.tla enumerates collections of 1..3(4) files (row counts incl. 0, directory keys) x ways of opening "
-          "(list, directory, glob, merge) x absolute/relative paths x verification x which file deviates in schema, with the "
+          "(list, directory, glob, merge) x absolute/relative paths x root given or inferred x verification x which file deviates "
+          "in schema and how (column name, physical type, fixed length, logical type, REQUIRED vs OPTIONAL), with the "
           "contract rows = concatenation in the given order, count = sum, rejection under verification; each is built with "
           "the real writer in flat, hive and drill directory shapes and opened. spec/Categorical.tla (model-checked in both "
           "variants) supplies every sequence of per-file dictionaries, written as separate files and opened together."),
